@@ -142,7 +142,7 @@ class Run:
             self.cov["samples"].append(case)
 
     # ---- build -------------------------------------------------------------------------------
-    def build(self, extra_targets=()):
+    def build(self, extra_targets=(), extra_generators=()):
         """Regenerate tables, build Props/<prop>.vo (full .vo, never -vos), check closedness."""
         prop = self.prop
         os.makedirs(os.path.join(COQDIR, "Generated"), exist_ok=True)
@@ -155,6 +155,13 @@ class Run:
             if r.returncode != 0:
                 self.broken_obligation("Generated/Tables.v", "the table translator rejected the source: " + r.stderr.strip()[-600:])
                 return False
+            for g in extra_generators:
+                out_name = "Tables" + g.replace("gen_tables_", "").replace(".py", "").capitalize() + ".v"
+                r = subprocess.run([PY, os.path.join(VERIF, "harness", g), os.path.join(COQDIR, "Generated", out_name)],
+                                   env=env_for_impl(), capture_output=True, text=True, timeout=120)
+                if r.returncode != 0:
+                    self.broken_obligation("Generated/" + out_name, "the table translator rejected the source: " + r.stderr.strip()[-600:])
+                    return False
             ensure_makefile()
             targets = ["Props/%s.vo" % prop] + list(extra_targets)
             cmd = ["timeout", "2400", "make", "-j16"] + targets
@@ -320,10 +327,16 @@ class Run:
 
 # ------------------------------------------------------------------------------------------------
 def load_known_findings(prop):
+    out = []
     p = os.path.join(VERIF, "known_findings.json")
-    if not os.path.exists(p):
-        return []
-    return [k for k in json.load(open(p)) if k.get("property") == prop]
+    if os.path.exists(p):
+        out += json.load(open(p))
+    d = os.path.join(VERIF, "known_findings.d")
+    if os.path.isdir(d):
+        for nm in sorted(os.listdir(d)):
+            if nm.endswith(".json"):
+                out += json.load(open(os.path.join(d, nm)))
+    return [k for k in out if k.get("property") == prop]
 
 
 def strip_comments(txt):
@@ -425,7 +438,7 @@ def main_entry(module, argv):
             rc = module.replay(run, json.load(open(a.replay)))
             shutil.rmtree(run.work, ignore_errors=True)
             return rc
-        if run.build(getattr(module, "EXTRA_TARGETS", ())):
+        if run.build(getattr(module, "EXTRA_TARGETS", ()), getattr(module, "EXTRA_GENERATORS", ())):
             module.check(run)
         rc = run.finish()
         print("%s %s tier=%s seed=%d evaluations=%d nontrivial=%d obligations=%d/%d wall=%.1fs" % (
